@@ -321,16 +321,32 @@ class StmtMixin:
         inv = spec['inv']
         lab = f'loop{k}'
 
-        def inv_at(i):
+        def inv_parts(i):
             env = dict(fr.closure)
             env.update(fr.env)
             env['_i'] = SInt(i)
             env['_n'] = SInt(n)
             if self.yielded is not None:
                 env['_out'] = self.yielded
-            return self.truthy(self.eval_contract_fn(inv, env))
+            return self.eval_contract_conjuncts(inv, env)
 
-        self.prove(inv_at(z3.IntVal(0)), 'inv-init', lab, st.lineno)
+        def inv_at(i):
+            ps = inv_parts(i)
+            return z3.And(*ps) if len(ps) > 1 else ps[0]
+
+        def prove_inv(i, kind):
+            ps = inv_parts(i)
+            for k, pr in enumerate(ps):
+                self.prove(pr, kind, lab if len(ps) == 1 else f'{lab}.{k}', st.lineno, assume=(kind == 'inv-init'), focus=('inv', lab, k))
+
+        def assume_inv(i):
+            ps = inv_parts(i)
+            for k, pr in enumerate(ps):
+                if len(ps) > 1:
+                    self.pc_tags[len(self.pc)] = ('inv', lab, k)
+                self.assume(pr)
+
+        prove_inv(z3.IntVal(0), 'inv-init')
         names, fields = self.modified_in(st.body)
         names |= set(spec.get('modifies', []))
         alt = self.choose(2)
@@ -345,6 +361,14 @@ class StmtMixin:
             o = fr.env.get(on)
             if isinstance(o, SObj) and fld in self.heap[o.oid]:
                 self.heap[o.oid][fld] = self.havoc_like(self.heap[o.oid][fld], f'{on}.{fld}')
+        if spec.get('fields'):
+            # objects may have been constructed by earlier iterations: the allocation pointer only moves down
+            a2 = z3.Int(self.fresh('alloc'))
+            self.assume(a2 <= self.allocp)
+            self.allocp = a2
+        for fld in spec.get('fields', []):
+            self.field_arr(fld)
+            self.fields[fld] = z3.Const(self.fresh('hvF_' + fld), z3.ArraySort(Val, Val))
         for (on, fld) in sorted(fields):
             if not isinstance(fr.env.get(on), SObj):
                 self.field_arr(fld)
@@ -354,7 +378,7 @@ class StmtMixin:
         if alt == 0:
             i = z3.Int(self.fresh('i'))
             self.assume(z3.And(i >= 0, i < n))
-            self.assume(inv_at(i))
+            assume_inv(i)
             self.assign(fr, st.target, elem(i))
             if enum_index is not None:
                 fr.env[enum_index] = SInt(i)
@@ -364,10 +388,10 @@ class StmtMixin:
                 pass
             except BreakEx:
                 return      # leaves the loop with the current state
-            self.prove(inv_at(i + 1), 'inv-pres', lab, st.lineno)
+            prove_inv(i + 1, 'inv-pres')
             raise PathEnd()
         else:
-            self.assume(inv_at(n))
+            assume_inv(n)
             # loop variable after the loop: last element if any (unknown otherwise)
             return
 
